@@ -313,6 +313,21 @@ Definition read_current (E : env) (st : store) (a : api) (o : opts) : result :=
                            else []
                 end |}.
 
+(* ---------------------------------------------------------------- what a manifest-list entry carries
+   A manifest-list record has many fields; the reader uses ONE of them, manifest_path (ManifestFile.content,
+   manifest_length, partition_spec_id, the snapshot id and the three counts carry no read meaning: the library
+   writes content = DATA only).  [env.avro_list] is therefore the full decoder followed by this projection;
+   C14_list_fields_without_read_meaning says nothing else of an entry can change what a read returns. *)
+Record lentry := { le_path : option key; le_content : Z; le_length : Z; le_spec : Z; le_snapshot : Z; le_counts : list Z }.
+
+Definition project_list (d : avro (list lentry)) : avro (list (option key)) :=
+  match d with AvOk l => AvOk (map le_path l) | AvRaise m => AvRaise m end.
+
+Definition with_list_decoder (E : env) (dec : bytes -> avro (list lentry)) : env :=
+  {| sha := sha E; parse_hint := parse_hint E; recovered := recovered E; parse_meta := parse_meta E;
+     avro_list := fun b => project_list (dec b); json_list := json_list E;
+     avro_man := avro_man E; json_man := json_man E; parquet := parquet E |}.
+
 (* ---------------------------------------------------------------- a store that changes while the call runs
    ts n is the store as the call's n-th storage operation sees it.  The data stage makes exactly one storage
    operation per data file (read_data: one st_get, then hash and parse of the bytes it returned), so the file
